@@ -53,6 +53,9 @@ func resultStored(ret *ssa.Return, i int) ssa.Value {
 }
 
 func runC04(c *Ctx) {
+	c10LengthWord(c, c.Root(), "C04.reserve-write-link")
+	c04LookupGuard(c, c.Root(), "C04.duplicate-check")
+
 	m := c.Root()
 	c04AtomicOnly(c, m)
 	c04Publication(c, m, "C04")
@@ -707,4 +710,57 @@ func constExpr(v ssa.Value, depth int) bool {
 		return true
 	}
 	return false
+}
+
+// c04LookupGuard: lookup's guard against cyclic chains must admit every well-formed chain. A
+// chain can hold one record per recordUnit bytes of file, files grow without bound, and several
+// processes add to one bucket: the bound must be derived from the mapping's length
+// (len(Data)/K with K at most the smallest record), not be a constant.
+func c04LookupGuard(c *Ctx, m *Module, rule string) {
+	r := c.R
+	lk := m.Func("internal/counter", "mappedFile.lookup")
+	n := 0
+	for _, b := range lk.Blocks {
+		ifi, ok := b.Instrs[len(b.Instrs)-1].(*ssa.If)
+		if !ok {
+			continue
+		}
+		bo, ok := ifi.Cond.(*ssa.BinOp)
+		if !ok {
+			continue
+		}
+		// a comparison of a loop counter (a phi that is incremented) with a bound
+		var bound ssa.Value
+		isCounter := func(v ssa.Value) bool {
+			phi, ok := strip(v).(*ssa.Phi)
+			if !ok {
+				return false
+			}
+			for _, e := range phi.Edges {
+				if inc, ok := strip(e).(*ssa.BinOp); ok && inc.Op == token.ADD && strip(inc.X) == ssa.Value(phi) {
+					return true
+				}
+			}
+			return false
+		}
+		switch {
+		case isCounter(bo.X) && (bo.Op == token.GTR || bo.Op == token.GEQ):
+			bound = bo.Y
+		case isCounter(bo.Y) && (bo.Op == token.LSS || bo.Op == token.LEQ):
+			bound = bo.X
+		default:
+			continue
+		}
+		n++
+		d := describe(bound)
+		okB := false
+		if q, ok := strip(bound).(*ssa.BinOp); ok && q.Op == token.QUO {
+			if k, isC := intConst(q.Y); isC && k >= 1 && k <= 32 && strings.HasSuffix(describe(q.X), "mapping.Data)") && strings.HasPrefix(describe(q.X), "builtin:len(") {
+				okB = true
+			}
+		}
+		r.Check(rule, fmt.Sprintf("lookup/cycle guard #%d is bounded by the mapping's size", n), m.Pos(bo.Pos()), okB,
+			"a walk may be given up as cyclic only after more steps than the file can hold records: len(mapping.Data)/K, K ≤ 32; got "+shortDesc(d))
+	}
+	r.Check(rule, "lookup/has a cycle guard", m.Pos(lk.Pos()), n >= 1, "the chain walk must be bounded (a cyclic chain would hang the caller)")
 }
